@@ -107,10 +107,10 @@ def Pair.run (cfg : Cfg) (mss : Nat) (p : Pair) : List (Bool × Act) → Pair
     and arbitrary peer windows. -/
 def Pair.init (isnX isnY wndX wndY : Nat) : Pair :=
   { x := { iss := wadd isnX 1,
-           tcb := { state := .established, peer := ⟨.host 1 false, 0⟩, sndNxt := wadd isnX 1, sndUna := wadd isnX 1,
+           tcb := { state := .established, peer := ⟨.host 1 false, 0⟩, sndNxt := wadd isnX 1, sndUna := wadd isnX 1, sndMax := wadd isnX 1,
                     sndWnd := wndX, rcvNxt := wadd isnY 1 } },
     y := { iss := wadd isnY 1,
-           tcb := { state := .established, peer := ⟨.host 0 false, 0⟩, sndNxt := wadd isnY 1, sndUna := wadd isnY 1,
+           tcb := { state := .established, peer := ⟨.host 0 false, 0⟩, sndNxt := wadd isnY 1, sndUna := wadd isnY 1, sndMax := wadd isnY 1,
                     sndWnd := wndY, rcvNxt := wadd isnX 1 } } }
 
 end TV.NetTcp
